@@ -693,8 +693,8 @@ def _write_all(fd, data):
         mv = mv[n:]
 
 
-def _in_child(fn):
-    """Run fn() in a forked child, return its JSON-able result (harness errors propagate)."""
+def _spawn(fn):
+    """Start fn() in a forked child; returns (pid, read end of its result pipe)."""
     r, w = os.pipe()
     sys.stdout.flush()
     sys.stderr.flush()
@@ -713,6 +713,11 @@ def _in_child(fn):
         finally:
             os._exit(code)
     os.close(w)
+    return pid, r
+
+
+def _collect(pid, r):
+    """Result of a child started by _spawn (harness errors propagate)."""
     data = _read_all(r)
     os.close(r)
     _, status = os.waitpid(pid, 0)
@@ -727,10 +732,19 @@ def _in_child(fn):
     return d["ok"]
 
 
-def explore(names, hist, depth, only=None):
+def _in_child(fn):
+    """Run fn() in a forked child, return its JSON-able result."""
+    return _collect(*_spawn(fn))
+
+
+FAN = 2  # sibling subtrees of the first FAN levels run concurrently (hides fork latency); deeper ones sequentially
+
+
+def explore(names, hist, depth, only=None, fan=0):
     """Executed in an image that has run `hist`: fork one child per enabled event; returns
     {history string: compact outcome of its last event} for the whole subtree."""
     out = {}
+    running = []
     for ev in enabled(hist, len(names)):
         if only is not None and ev != only:
             continue
@@ -739,10 +753,15 @@ def explore(names, hist, depth, only=None):
             h2 = hist + (ev,)
             sub = {".".join(h2): compact(do_event(names, ev))}
             if depth > 1:
-                sub.update(explore(names, h2, depth - 1))
+                sub.update(explore(names, h2, depth - 1, fan=fan - 1))
             return sub
 
-        out.update(_in_child(child))
+        if fan > 0:
+            running.append(_spawn(child))
+        else:
+            out.update(_in_child(child))
+    for pid, r in running:
+        out.update(_collect(pid, r))
     return out
 
 
@@ -763,7 +782,7 @@ def _worker(items):
     part = Part()
     tables = {}
     for jid, names, first, depth in items:
-        t = explore(tuple(names), (), depth, only=first)
+        t = explore(tuple(names), (), depth, only=first, fan=FAN)
         tables.setdefault(jid, {}).update(t)
         part.inc("transitions", len(t))
     d = part.dict()
